@@ -975,7 +975,9 @@ pub fn check_main(prop: &dyn Property, tier: Tier, seed: u64) -> i32 {
     });
     let edir = crate::verif_dir().join("evidence");
     let _ = std::fs::create_dir_all(&edir);
-    let _ = std::fs::write(edir.join(format!("{}.json", id)), serde_json::to_vec_pretty(&evidence).unwrap());
+    // the development mode without the seeded search writes its record elsewhere (it is not evidence of a registered command)
+    let ename = if fuzz_only { format!("{}.fuzzonly.json", id) } else { format!("{}.json", id) };
+    let _ = std::fs::write(edir.join(ename), serde_json::to_vec_pretty(&evidence).unwrap());
 
     // 4. report
     let stdout = std::io::stdout();
